@@ -60,6 +60,33 @@ def mcast_table(ctx: Any, R: str) -> List[Ob]:
     return obs
 
 
+def fresh_message_obligations(ctx: Any, R: str) -> List[Ob]:
+    """The message that is dispatched (to the query handler or to the record manager) is decoded in this call from this
+    datagram's bytes and stamped with this arrival time."""
+    prog = ctx.prog
+    obs: List[Ob] = []
+    # (z) the "recently multicast" decisions compare the record's age with the time THIS datagram arrived: the message that
+    # is dispatched is decoded in this call from this datagram's bytes and stamped with this arrival time (a reused,
+    # earlier-decoded message would carry the arrival time of the first copy and every record would look recent for ever)
+    pd = prog.func('zeroconf._listener.AsyncListener._process_datagram_at_time')
+    disp = [c for c in walk_local_ordered(pd.node) if isinstance(c, ast.Call) and call_name(c) in ('handle_query_or_defer', 'async_updates_from_response')]
+    if not disp:
+        raise AnalysisError('anchor vanished: dispatch calls of the datagram processor')
+    from .common import local_defs as _ld
+
+    p_now, p_data = pd.params[3], pd.params[4]
+    for c in disp:
+        marg = next((a for a in c.args if isinstance(a, ast.Name) and a.id not in pd.params), None)
+        defs = [v for v in _ld(pd).get(marg.id, [])] if marg is not None else []
+
+        def fresh(v: Any) -> bool:
+            return isinstance(v, ast.Call) and call_name(v) == 'DNSIncoming' and len(v.args) >= 4 and norm(v.args[0]) == p_data and norm(v.args[3]) == p_now
+
+        good = bool(defs) and all(v is not None and fresh(v) for v in defs)
+        obs.append(ob(R, pd, c, 'the message handed on is decoded from this datagram and carries this datagram\'s arrival time', good, '' if good else f'`{marg.id if marg is not None else "?"}` may be something other than DNSIncoming({p_data}, ..., {p_now}): ' + '; '.join(norm(v)[:70] for v in defs if v is not None and not fresh(v))))
+    return obs
+
+
 @rule('C11.ROUTE', 'D', expect_min=18)
 def route(ctx: Any) -> List[Ob]:
     """Routing decision tables against the property text: per question, which of
@@ -207,25 +234,7 @@ def route(ctx: Any) -> List[Ob]:
     cm = prog.func('zeroconf._listener.AsyncListener.connection_made')
     st = [s_ for t, s_ in attr_stores(cm.node) if self_attr(t, cm.params[0]) == 'transport']
     obs.append(ob(R, cm, st[0] if st else 'self.transport = ...', 'the protocol remembers the transport it was connected to', len(st) == 1 and cm.params[1] in norm(expand_(cm, st[0].value))))
-    # (z) the "recently multicast" decisions compare the record's age with the time THIS datagram arrived: the message that
-    # is dispatched is decoded in this call from this datagram's bytes and stamped with this arrival time (a reused,
-    # earlier-decoded message would carry the arrival time of the first copy and every record would look recent for ever)
-    pd = prog.func('zeroconf._listener.AsyncListener._process_datagram_at_time')
-    disp = [c for c in walk_local_ordered(pd.node) if isinstance(c, ast.Call) and call_name(c) in ('handle_query_or_defer', 'async_updates_from_response')]
-    if not disp:
-        raise AnalysisError('anchor vanished: dispatch calls of the datagram processor')
-    from .common import local_defs as _ld
-
-    p_now, p_data = pd.params[3], pd.params[4]
-    for c in disp:
-        marg = next((a for a in c.args if isinstance(a, ast.Name) and a.id not in pd.params), None)
-        defs = [v for v in _ld(pd).get(marg.id, [])] if marg is not None else []
-
-        def fresh(v: Any) -> bool:
-            return isinstance(v, ast.Call) and call_name(v) == 'DNSIncoming' and len(v.args) >= 4 and norm(v.args[0]) == p_data and norm(v.args[3]) == p_now
-
-        good = bool(defs) and all(v is not None and fresh(v) for v in defs)
-        obs.append(ob(R, pd, c, 'the message handed on is decoded from this datagram and carries this datagram\'s arrival time', good, '' if good else f'`{marg.id if marg is not None else "?"}` may be something other than DNSIncoming({p_data}, ..., {p_now}): ' + '; '.join(norm(v)[:70] for v in defs if v is not None and not fresh(v))))
+    obs.extend(fresh_message_obligations(ctx, R))
     return obs
 
 
@@ -303,6 +312,23 @@ def fmt(ctx: Any) -> List[Ob]:
         g = prog.func(QR + '.' + nm)
         calls = [c for c in walk_local_ordered(g.node) if isinstance(c, ast.Call) and call_name(c) == 'async_get_unique']
         obs.append(ob(R, g, calls[0] if calls else nm, 'the sighting consulted is the cache entry equal to the record being answered', len(calls) == 1 and [norm(a) for a in calls[0].args] == [g.params[1]]))
+    # the echoed id and questions are those of the FIRST packet of the query: the list handed to the handler keeps arrival
+    # order -- the deferred packets as they came, the packet that completes the query appended last
+    rq = prog.func('zeroconf._listener.AsyncListener._respond_query')
+    rme, p_msg = rq.params[0], rq.params[1]
+    hcall = [c for c in walk_local_ordered(rq.node) if isinstance(c, ast.Call) and call_name(c) == 'handle_assembled_query']
+    okp, whyp = False, 'anchor: handle_assembled_query(packets, ...) not found'
+    if hcall and hcall[0].args and isinstance(hcall[0].args[0], ast.Name):
+        from .common import local_defs as _ld2
+
+        pk = hcall[0].args[0].id
+        defs = [v for v in _ld2(rq).get(pk, []) if v is not None]
+        from_deferred = len(defs) == 1 and isinstance(defs[0], ast.Call) and call_name(defs[0]) == 'pop' and isinstance(defs[0].func, ast.Attribute) and self_attr(defs[0].func.value, rme) == '_deferred'
+        appends = [c for c in walk_local_ordered(rq.node) if isinstance(c, ast.Call) and call_name(c) == 'append' and isinstance(c.func, ast.Attribute) and norm(c.func.value) == pk and c.args and norm(c.args[0]) == p_msg]
+        others = [c for c in walk_local_ordered(rq.node) if isinstance(c, ast.Call) and call_name(c) in ('insert', 'extend', 'appendleft', 'reverse', 'sort') and isinstance(c.func, ast.Attribute) and norm(c.func.value) == pk]
+        okp = from_deferred and len(appends) == 1 and not others
+        whyp = '' if okp else f'`{pk}` is built as {[norm(d)[:50] for d in defs]} with {len(appends)} append(s) of the new packet and other reordering calls {[norm(o)[:40] for o in others]}'
+    obs.append(ob(R, rq, hcall[0] if hcall else '_respond_query', 'the packets of a reassembled query reach the handler in arrival order (deferred ones first, the completing one last)', okp, whyp))
     return obs
 
 
